@@ -254,7 +254,7 @@ def build(group, cfg, profile="kani", dest=None, log=None):
     dep_line = f'verif_shim = {{ path = "{shim_path}"{feat_s} }}\n'
 
     crates = set(cfg.get("t1_crates", [])) | set(cfg.get("t2_crates", [])) | set(cfg.get("dep_crates", []))
-    for rel in list(cfg.get("t1_files", [])) + list(cfg.get("t2_files", [])) + list(cfg.get("harness", {}).keys()):
+    for rel in list(cfg.get("t1_files", [])) + list(cfg.get("t2_files", [])) + list(cfg.get("harness", {}).keys()) + list(cfg.get("t1_fields", {}).keys()):
         crates.add(rel.split("/")[0])
     for crate in sorted(crates):
         toml = os.path.join(dest, crate, "Cargo.toml")
@@ -279,6 +279,20 @@ def build(group, cfg, profile="kani", dest=None, log=None):
             if n:
                 _write_keep_mtime(f, t, max(os.path.getmtime(f), kit_m))
                 info["t1"] += n
+        # T1f: a per-field type substitution, for a struct that is declared in a file which is NOT rewritten as a whole but
+        # whose field is consumed by a rewritten file (fontir's MiscMetadata range bits -> fontbe/os2.rs). Only the declared
+        # type on the line of the named field changes; no function body is touched.
+        for rel, fields in cfg.get("t1_fields", {}).items():
+            f = os.path.join(dest, rel)
+            s = open(f).read()
+            n = 0
+            for field in fields:
+                s, k = re.subn(r"(?m)^(\s*pub\s+" + re.escape(field) + r"\s*:\s*[^\n]*?)\b(HashSet|HashMap|BTreeMap|BTreeSet)<", r"\1verif_shim::\2<", s)
+                n += k
+            if n != len(fields):
+                raise RuntimeError(f"T1f: expected {len(fields)} field substitutions in {rel}, made {n}")
+            _write_keep_mtime(f, s, max(os.path.getmtime(f), kit_m))
+            info["t1"] += n
         t2_files = set(os.path.join(dest, f) for f in cfg.get("t2_files", []))
         for crate in cfg.get("t2_crates", []):
             t2_files.update(_rs_files(os.path.join(dest, crate, "src")))
